@@ -124,6 +124,13 @@ func (p *Program) checkResize() {
 		return
 	}
 
+	// Size reports must reach the event loop in the order in which the sizes
+	// were read: with concurrent queries (start-up, the resize listener,
+	// WindowSize commands) a stale size could otherwise be delivered after a
+	// newer one and stay the last one the program has seen.
+	p.resizeMu.Lock()
+	defer p.resizeMu.Unlock()
+
 	w, h, err := term.GetSize(p.ttyOutput.Fd())
 	if err != nil {
 		select {
